@@ -37,6 +37,11 @@ var solvers = []Solver{
 		return []string{"cvc5", "--lang=smt2", fmt.Sprintf("--tlimit=%d", t*1000), "--produce-models", f}
 	}},
 	{"z3", func(f string, t int) []string { return []string{"z3", fmt.Sprintf("-T:%d", t), f} }},
+	// alternative configurations of z3 5.1: on quantified bit-vector goals they often differ by 10x
+	{"z3-new/relevancy0", func(f string, t int) []string { return []string{"z3-new", fmt.Sprintf("-T:%d", t), "smt.relevancy=0", f} }},
+	{"z3-new/noautocfg", func(f string, t int) []string {
+		return []string{"z3-new", fmt.Sprintf("-T:%d", t), "smt.auto_config=false", "smt.mbqi=false", f}
+	}},
 }
 
 func runSolver(ctx context.Context, s Solver, file string, timeout int) (string, string, float64) {
@@ -90,8 +95,8 @@ func Solve(script string, opts SolveOpts) *SolveResult {
 	ctx := context.Background()
 	// stage 1: z3-new with a short budget
 	t1 := opts.Timeout
-	if t1 > 5 {
-		t1 = 5
+	if t1 > 2 {
+		t1 = 2
 	}
 	st, out, el := runSolver(ctx, solvers[0], file, t1)
 	res.Tried = append(res.Tried, fmt.Sprintf("%s:%s:%.2fs", solvers[0].Name, st, el))
@@ -146,8 +151,8 @@ func Solve(script string, opts SolveOpts) *SolveResult {
 }
 
 func secondOpinion(ctx context.Context, res *SolveResult, file string, opts SolveOpts, skip int) {
-	for i := range solvers {
-		if i == skip {
+	for i := range solvers[:3] {
+		if i == skip || (skip >= 3 && i == 0) {
 			continue
 		}
 		st, _, el := runSolver(ctx, solvers[i], file, opts.Timeout)
